@@ -53,6 +53,7 @@ void cv_on_throw(var obj) {
 
 static void arbitrary_array(void) {
   a = (struct Array*)header_init(&AO.h, Array, AllocHeap);
+  { struct Array any_state; *a = any_state; }      /* fields the invariant below does not pin down are arbitrary */
   a->type = ELEM; a->tsize = sizeof(struct Elem); a->nitems = N; a->nslots = S;
   a->data = S ? malloc(S * STEP) : NULL;
   __CPROVER_assume(S == 0 || a->data != NULL);
